@@ -2,6 +2,7 @@
 //! See /verif/DESIGN.md.
 
 mod child;
+mod forked;
 mod minimise;
 mod oracle;
 mod pipeline;
@@ -30,13 +31,15 @@ fn init_sim() {
         println!("HARNESS-ERROR: the getrandom seam does not control std's hash keys in this build");
         std::process::exit(2);
     }
+    // from here on the code under test only ever runs in grandchildren of this (still tiny) process
+    forked::start_server(oracle::handle_request);
 }
 
 fn env_seed() -> u64 {
     std::env::var("VERIF_SEED").ok().and_then(|s| s.trim().parse::<u64>().ok()).unwrap_or(1)
 }
 
-const ALL_STRATA: &str = "crash,preempt,random";
+const ALL_STRATA: &str = "crash,preempt,long,random";
 
 fn main() {
     let args: Vec<String> = std::env::args().collect();
@@ -60,7 +63,7 @@ fn main() {
                 strata: strata.split(',').filter(|s| !s.is_empty()).map(String::from).collect(),
                 audit_every: arg(&args, "--audit-every").and_then(|s| s.parse().ok()).unwrap_or(100),
                 write_evidence: !flag(&args, "--no-evidence"),
-                run_timeout_s: arg(&args, "--run-timeout").and_then(|s| s.parse().ok()).unwrap_or(120),
+                run_timeout_s: arg(&args, "--run-timeout").and_then(|s| s.parse().ok()).unwrap_or(60),
             })
         }
         "child" => {
@@ -77,6 +80,7 @@ fn main() {
                 only: arg(&args, "--only").and_then(|s| s.split_once(':').map(|(a, b)| (a.to_string(), b.parse().unwrap_or(0)))),
                 strata: arg(&args, "--strata").unwrap_or_else(|| ALL_STRATA.into()).split(',').filter(|s| !s.is_empty()).map(String::from).collect(),
                 max_minimise: arg(&args, "--max-minimise").and_then(|s| s.parse().ok()).unwrap_or(3),
+                run_timeout_s: arg(&args, "--run-timeout").and_then(|s| s.parse().ok()).unwrap_or(60),
             })
         }
         "mkreplay" => {
@@ -112,7 +116,7 @@ fn main() {
             let opts = args.get(3).cloned().unwrap_or_else(|| "{}".into());
             let src = std::fs::read_to_string(path).expect("read");
             let t = PlanTask { name: path.clone(), opt_name: "cli".into(), src, ts: path.ends_with(".tsx"), options: opts, comments: !flag(&args, "--no-comments"), crash_at: None, emitter_crash_at: None, noise: Default::default() };
-            let r = sched::solo(&t, 7);
+            let r = oracle::References::new(7, Duration::from_secs(60)).get(&t);
             match &r.outcome {
                 sched::Outcome::Returned(o) => {
                     println!("{}", o.code);
@@ -126,6 +130,24 @@ fn main() {
             println!("// steps: {}  sites: {:?}", r.steps, r.sites);
             0
         }
+        "forkbench" => {
+            init_sim();
+            let ld = if flag(&args, "--small") { None } else { Some(child::load(&format!("{verif_dir}/workload"), 1, false, Duration::from_secs(60))) };
+            let n = 2000;
+            let t0 = std::time::Instant::now();
+            for _ in 0..n {
+                let _ = forked::run(|| vec![1u8], Duration::from_secs(5)).unwrap();
+            }
+            println!("trivial fork: {:?} each", t0.elapsed() / n);
+            let t0 = std::time::Instant::now();
+            for _ in 0..n {
+                let t = &ld.as_ref().unwrap().tasks[0];
+                let _ = oracle::References::new(1, Duration::from_secs(5)).get(t);
+            }
+            println!("fork + thread: {:?} each", t0.elapsed() / n);
+            drop(ld);
+            0
+        }
         "hashes" => {
             // event-log fingerprints of a slice of a stratum (used to prove the simulator deterministic)
             init_sim();
@@ -135,7 +157,7 @@ fn main() {
             let from: u64 = arg(&args, "--from").and_then(|s| s.parse().ok()).unwrap_or(0);
             let to: u64 = arg(&args, "--to").and_then(|s| s.parse().ok()).unwrap_or(100);
             let stratum = arg(&args, "--stratum").unwrap_or_else(|| "random".into());
-            let ld = child::load(&arg(&args, "--workload").unwrap_or_else(|| format!("{verif_dir}/workload")), rng::mix(seed ^ index), false);
+            let ld = child::load(&arg(&args, "--workload").unwrap_or_else(|| format!("{verif_dir}/workload")), rng::mix(seed ^ index), false, Duration::from_secs(60));
             let mut refs = ld.refs;
             let world = strata::World::build(seed, false, ld.tasks, ld.info);
             let to = to.min(world.len(&stratum, to));
@@ -144,9 +166,10 @@ fn main() {
                     continue;
                 }
                 let (plan, script) = world.plan(&stratum, run);
-                let budgets = refs.budgets(&plan);
-                let rec = sched::execute(&plan, if script.is_empty() { None } else { Some(&script) }, &budgets);
-                println!("{stratum} {run} {:016x} {:016x} {}", rec.log_hash, rec.interleaving, rec.trace.len());
+                match oracle::run_forked(&plan, if script.is_empty() { None } else { Some(&script) }, &mut refs) {
+                    Ok(rec) => println!("{stratum} {run} {:016x} {:016x} {} {}", rec.log_hash, rec.interleaving, rec.trace.len(), rec.checked.violations.len()),
+                    Err(d) => println!("{stratum} {run} died: {d}"),
+                }
             }
             0
         }
@@ -202,7 +225,7 @@ fn mkreplay(args: &[String], verif_dir: &str) -> i32 {
             }
         }
         s => {
-            let ld = child::load(&workload_dir, rng::mix(seed), false);
+            let ld = child::load(&workload_dir, rng::mix(seed), false, Duration::from_secs(60));
             let world = strata::World::build(seed, thorough, ld.tasks, ld.info);
             let random_runs: u64 = arg(args, "--random-runs").and_then(|s| s.parse().ok()).unwrap_or(u64::MAX);
             if run >= world.len(s, random_runs) {
@@ -243,7 +266,7 @@ fn replay_inner(path: &str) -> i32 {
         let t = &rf.plan.tasks[0];
         let mut distinct = std::collections::BTreeSet::new();
         for k in 0..16u64 {
-            let r = sched::solo(t, rng::mix(rf.plan.key_seed ^ (k << 8)));
+            let r = oracle::References::new(rng::mix(rf.plan.key_seed ^ (k << 8)), Duration::from_secs(60)).get(t);
             distinct.insert(format!("{:?}", r.outcome));
         }
         if distinct.len() > 1 {
@@ -253,7 +276,7 @@ fn replay_inner(path: &str) -> i32 {
         println!("not reproduced: 16 hash-key seeds, one result");
         return 0;
     }
-    let mut refs = oracle::References::new(rf.plan.key_seed);
+    let mut refs = oracle::References::new(rf.plan.key_seed, Duration::from_secs(60));
     let script = match &rf.script {
         Some(s) => match decode_script(s) {
             Some(s) => Some(s),
@@ -264,13 +287,15 @@ fn replay_inner(path: &str) -> i32 {
         },
         None => None,
     };
-    let budgets = refs.budgets(&rf.plan);
-    let rec = sched::execute(&rf.plan, script.as_deref(), &budgets);
-    let chk = oracle::check(&rf.plan, &rec, &mut refs);
-    println!("executed {} tasks, {} decisions, event-log fingerprint {:016x}", rec.results.len(), rec.trace.len(), rec.log_hash);
+    let res = oracle::run_forked(&rf.plan, script.as_deref(), &mut refs);
+    match &res {
+        Ok(s) => println!("executed {} tasks, {} decisions, event-log fingerprint {:016x}", rf.plan.tasks.len(), s.trace.len(), s.log_hash),
+        Err(d) => println!("the forked host process did not survive: {d}"),
+    }
+    let violations = oracle::violations_of(&res);
     let hit = match &rf.expected {
-        Some(e) => chk.violations.iter().find(|v| v.matches_expected(e)),
-        None => chk.violations.first(),
+        Some(e) => violations.iter().find(|v| v.matches_expected(e)),
+        None => violations.first(),
     };
     match hit {
         Some(v) => {
@@ -284,7 +309,7 @@ fn replay_inner(path: &str) -> i32 {
             if let Some(e) = &rf.expected {
                 println!("not reproduced: expected clause {} task {} component {} fingerprint {}", e.clause, e.task, e.component, e.fingerprint);
             }
-            for v in &chk.violations {
+            for v in &violations {
                 println!("    (other violation seen: clause {} task {} component {} fingerprint {})", v.clause, v.task_key, v.component, v.fingerprint);
             }
             0
